@@ -105,3 +105,52 @@ def register(reg, stubs, world):
                      cases=lambda cx: [cx['seen'] == NONE, cx['seen'] != NONE],
                      loops={1: LoopSpec(c_inv, havoc=('$val',), fresh_only=True)}, props=('C13',),
                      assumptions=('partial correctness: termination of the cycle walk itself is not proved',)))
+    register_check_rules(reg)
+
+
+def register_check_rules(reg):
+    def bad_at(eng, st, s, m, key):
+        skip = truthy(z3.Select(st.H('skip_undefined_check'), V.ref(s)))
+        c = z3.Select(m, key)
+        return z3.Or(z3.And(z3.Not(skip), undef(c, m)), cyc(c, EMPTY_SET, m))
+
+    def cr_pre(cx):
+        eng, st = cx.eng, cx.st0
+        s = cx['self']
+        return [('rule-store-holds-well-formed-trees', store_trees(eng, st, s)),
+                ('switches-are-booleans', z3.And(V.is_bool(z3.Select(st.H('skip_undefined_check'), V.ref(s))),
+                                                 V.is_bool(cx['raise_on_violation'])))]
+
+    def violation(cx):
+        eng, st = cx.eng, cx.st0
+        R, m = rules_of(eng, st, cx['self'])
+        K = keys_of(m)
+        j = z3.Int('cr!j')
+        return z3.Exists([j], z3.And(j >= 0, j < z3.Length(K), bad_at(eng, st, cx['self'], m, K[j])))
+
+    def cr_post(cx, out):
+        v = violation(cx)
+        if out.kind == 'ret':
+            return [('reports-a-problem-exactly-when-some-rule-has-one', out.value == mk_bool(z3.Not(v))),
+                    ('returns-instead-of-raising-only-without-violation-or-request',
+                     z3.Or(z3.Not(v), z3.Not(truthy(cx['raise_on_violation']))))]
+        return [('raises-only-a-requested-InvalidDefinitionError-for-a-violation',
+                 z3.And(out.exc.cname == 'InvalidDefinitionError', v, truthy(cx['raise_on_violation'])))]
+
+    def cr_inv(L):
+        eng = L.eng
+        cx = L.cx
+        R, m = rules_of(eng, cx.st0, cx['self'])
+        K = keys_of(m)
+        j = z3.Int('ci!j')
+        seen_bad = z3.Exists([j], z3.And(j >= 0, j < L.i, bad_at(eng, cx.st0, cx['self'], m, K[j])))
+        lst = lambda n: z3.And(V.is_obj(L.st.loc[n]), V.ref(L.st.loc[n]) >= cx.st0.ap,
+                               clsof(V.ref(L.st.loc[n])) == eng.cid('list'), V.is_list(eng.val(L.st, L.st.loc[n])),
+                               L.st.loc[n] == L.entry.loc[n])
+        return [('violation-flag-records-the-rules-seen-so-far', L.st.loc['violation'] == mk_bool(seen_bad)),
+                ('name-lists-are-private-lists', z3.And(lst('undefined_checks'), lst('cyclic_checks'),
+                                                       V.ref(L.st.loc['undefined_checks']) != V.ref(L.st.loc['cyclic_checks'])))]
+    reg.add(Contract('policy:Enforcer.check_rules', pre=cr_pre, post=cr_post, raises=('InvalidDefinitionError',),
+                     heap_axioms=tree_axioms, allocates=True,
+                     loops={1: LoopSpec(cr_inv, havoc=('$val',), fresh_only=True)}, props=('C13',),
+                     doc='aggregates the two walks over every rule; optional raise'))
